@@ -370,7 +370,26 @@ func guardRules(c *core.Ctx) {
 			// the returned value is the fresh literal holding exactly the hseq.Type argument
 			res := p.Results[0]
 			lit := p.End.MemAt(res)
-			if !(res.Op == "alloc" && lit != nil && lit.Op == "lit" && len(lit.Args) == 1 && paramOf(lit.Args[0].Args[0], fn, 0)) {
+			holds := false
+			if res.Op == "alloc" && lit != nil && lit.Op == "lit" && len(lit.Args) >= 1 {
+				// exactly one field is the descriptor argument itself; anything else the lens caches is computed from
+				// that argument alone
+				nDesc := 0
+				derived := true
+				for _, kv := range lit.Args {
+					if kv.Op != "kv" || len(kv.Args) != 1 {
+						derived = false
+						continue
+					}
+					if paramOf(kv.Args[0], fn, 0) {
+						nDesc++
+					} else if !pureOverParam(kv.Args[0], fn, 0) {
+						derived = false
+					}
+				}
+				holds = nDesc == 1 && derived
+			}
+			if !holds {
 				okDom = false
 				c.Fail("guard-dominates", name, fn.Pos(), "the constructor returns %s, expected a fresh lens holding its hseq.Type argument", short(res))
 			}
@@ -407,4 +426,24 @@ func guardRules(c *core.Ctx) {
 		}
 	}
 
+}
+
+// pureOverParam: t is an arithmetic / projection expression whose only non-constant leaf is parameter i of fn.
+func pureOverParam(t *ir.Term, fn *ssa.Function, i int) bool {
+	ok, found := true, false
+	t.Walk(func(x *ir.Term) {
+		switch x.Op {
+		case "const":
+		case "param":
+			if paramOf(x, fn, i) {
+				found = true
+			} else {
+				ok = false
+			}
+		case "bin", "field", "conv", "un":
+		default:
+			ok = false
+		}
+	})
+	return ok && found
 }
